@@ -28,7 +28,8 @@ type config struct {
 	Index int
 	Kind  string
 	Roots []string // as configured
-	norm  []string // lower-case, no leading dot
+	norm  []string // lower-case, no leading dot (what the oracle judges with)
+	raw   []string // as configured minus the leading dot, case preserved (what the generators build hosts from)
 	good  []string // hosts inside the root domains
 }
 
@@ -42,7 +43,7 @@ func randWord(r *rand.Rand, n int) string {
 	return string(b)
 }
 
-var configKinds = []string{"single-nodot", "single-dot", "multi", "nested", "nested-multi"}
+var configKinds = []string{"single-nodot", "single-dot", "multi", "nested", "nested-multi", "three-label", "public-suffix", "deep", "metachar", "uppercase"}
 
 func genConfig(seed int64, ci int) *config {
 	r := vh.CaseRNG(seed, "c07-config", ci)
@@ -63,9 +64,22 @@ func genConfig(seed int64, ci int) *config {
 		c.Roots = []string{"apps." + w + ".test"}
 	case "nested-multi":
 		c.Roots = []string{".a." + w + ".test", w2 + ".test", "deep.er." + w3 + ".example"}
+	case "three-label":
+		c.Roots = []string{w + ".example.com"}
+	case "public-suffix":
+		c.Roots = []string{w2 + ".co.uk", "." + w + ".example.com.au"}
+	case "deep":
+		c.Roots = []string{"a.b.c.d." + w + ".test"}
+	case "metachar":
+		// not a legal host name, but a legal configuration string
+		c.Roots = []string{w + "+corp.test", "." + w2 + ".example.org"}
+	case "uppercase":
+		c.Roots = []string{strings.ToUpper(w) + ".Example.COM", ".Apps." + strings.ToUpper(w2) + ".test"}
 	}
 	c.norm = normRoots(c.Roots)
-	for _, n := range c.norm {
+	for _, root := range c.Roots {
+		n := strings.TrimSuffix(strings.TrimLeft(root, "."), ".")
+		c.raw = append(c.raw, n)
 		c.good = append(c.good, "app."+n, n, "x-1.y."+n)
 	}
 	return c
@@ -241,7 +255,7 @@ type sigSet struct {
 func (rn *runner) genSigned(r *rand.Rand, base int64, modeA bool, ti int) *sigSet {
 	cfg := rn.cfg
 	ss := &sigSet{}
-	root := cfg.norm[r.Intn(len(cfg.norm))]
+	root := cfg.raw[r.Intn(len(cfg.raw))]
 	var goodOfRoot []string
 	for _, g := range cfg.good {
 		if g == root || strings.HasSuffix(g, "."+root) {
@@ -381,6 +395,7 @@ func (rn *runner) checkLocation(i int, endpoint, family string, rs *sut.Resp, al
 	loc := rs.Location()
 	rep.Count("locations_inspected", 1)
 	rep.Count("locations_inspected_"+endpoint, 1)
+	rep.Count("locations_inspected_config_"+rn.cfg.Kind, 1)
 	if _, ok := rs.Header["Location"]; !ok {
 		rep.Count("3xx_without_location", 1)
 		return false
@@ -796,7 +811,7 @@ func (rn *runner) caseStart(i int, r *rand.Rand, base int64, modeA bool, ti int,
 	var outers []string
 	outerFamily := "good"
 	if outerTi >= 0 {
-		root := cfg.norm[r.Intn(len(cfg.norm))]
+		root := cfg.raw[r.Intn(len(cfg.raw))]
 		e := []string{"evil.com", "attacker.example", "evil.test"}[r.Intn(3)]
 		o := templates[outerTi].f(tctx{g: as.Host, e: e, root: root, m: "okta/sign_in"})
 		outers = append(outers, withQuery(o, nq))
@@ -991,7 +1006,7 @@ func (rn *runner) caseStart(i int, r *rand.Rand, base int64, modeA bool, ti int,
 
 func (rn *runner) caseCallback(i int, r *rand.Rand, ti int, kc kase) {
 	rep, as, cfg := rn.rep, rn.as, rn.cfg
-	root := cfg.norm[r.Intn(len(cfg.norm))]
+	root := cfg.raw[r.Intn(len(cfg.raw))]
 	var goodOfRoot []string
 	for _, g := range cfg.good {
 		if g == root || strings.HasSuffix(g, "."+root) {
@@ -1133,7 +1148,7 @@ func readerSelfTest() []string {
 func TestProp(t *testing.T) {
 	env := vh.GetEnv()
 	rep := vh.NewReport("C07", "exploration")
-	rep.Rule("cases walk (stride) over endpoint{sign_in,sign_out,start,callback,start->callback->sign_in flow, forged-state callback->sign_in flow, start->tampered state->callback->sign_in flow (the last three judged as a whole against what the client supplied)} x redirect-URI template (" + strconv.Itoa(len(templates)) + " parser-differential shapes in 9 families) x mode{valid signature, signature/timestamp sweep} per root-domain configuration {single, leading dot, multiple, nested, nested+multiple}; signature variant (18), timestamp variant (30), parameter duplication (9), placement (query/body), cookie state, method and wire form are drawn per case. distinct = the tuple (endpoint, step, template, position, duplication, placement, sig variant, ts variant, cookie, method, wire, config kind) of every request sso answered")
+	rep.Rule("cases walk (stride) over endpoint{sign_in,sign_out,start,callback,start->callback->sign_in flow, forged-state callback->sign_in flow, start->tampered state->callback->sign_in flow (the last three judged as a whole against what the client supplied)} x redirect-URI template (" + strconv.Itoa(len(templates)) + " parser-differential shapes in 11 families incl. look-alikes derived from the configured roots (every inner dot replaced/deleted)) x mode{valid signature, signature/timestamp sweep} per root-domain configuration {single, leading dot, multiple, nested, nested+multiple, three-label, two-label public suffix, five-label, regexp metacharacter in the configured string, upper-case}; signature variant (18), timestamp variant (30), parameter duplication (9), placement (query/body), cookie state, method and wire form are drawn per case. distinct = the tuple (endpoint, step, template, position, duplication, placement, sig variant, ts variant, cookie, method, wire, config kind) of every request sso answered")
 	rep.Assume("the fake IdP answers as scripted; Go's net/http client hands the Location header through unmodified (apart from trimming optional whitespace)")
 	rep.Assume("timestamps are generated at fixed offsets (>= 60 s away from the five-minute edge) from the instant the case is built; a request takes far less than the 10 s guard band")
 	rep.Assume("future timestamps, hosts with non-ASCII characters whose IDNA mapping decides membership, and URL schemes are don't-cares (counted, not judged)")
@@ -1147,8 +1162,8 @@ func TestProp(t *testing.T) {
 		t.Fatalf("reader self-test failed")
 	}
 
-	nConfigs := env.Pick(5, 20)
-	perConfig := env.Pick(1500, 7000)
+	nConfigs := env.Pick(10, 20)
+	perConfig := env.Pick(800, 7000)
 	only, skipAll := env.Only(stream)
 	if skipAll {
 		rep.Finish()
@@ -1176,7 +1191,7 @@ func TestProp(t *testing.T) {
 		return -1
 	}(), func(ci int) {
 		cfg := genConfig(env.Seed, ci)
-		as, err := sut.NewAuthStack(sut.AuthOpts{ProxyRootDomains: cfg.Roots, Host: "sso-auth." + cfg.norm[0]})
+		as, err := sut.NewAuthStack(sut.AuthOpts{ProxyRootDomains: cfg.Roots, Host: "sso-auth." + cfg.raw[0]})
 		if err != nil {
 			rep.Inconclusive("authenticator stack did not start: " + err.Error())
 			return
